@@ -103,10 +103,7 @@ fn parse_write_request(data: &[u8]) -> Result<WriteRequest> {
             (1, 2) => {
                 let (length, new_pos) = read_varint(data, pos)?;
                 pos = new_pos;
-                let end = pos + length as usize;
-                if end > data.len() {
-                    return Err(crate::Error::InvalidSchema("Truncated timeseries".into()));
-                }
+                let end = end_of(data, pos, length, "timeseries")?;
                 let ts = parse_timeseries(&data[pos..end])?;
                 timeseries.push(ts);
                 pos = end;
@@ -119,16 +116,16 @@ fn parse_write_request(data: &[u8]) -> Result<WriteRequest> {
             }
             (_, 1) => {
                 // 64-bit
-                pos += 8;
+                pos = end_of(data, pos, 8, "64-bit field")?;
             }
             (_, 2) => {
                 // Length-delimited
                 let (length, new_pos) = read_varint(data, pos)?;
-                pos = new_pos + length as usize;
+                pos = end_of(data, new_pos, length, "length-delimited field")?;
             }
             (_, 5) => {
                 // 32-bit
-                pos += 4;
+                pos = end_of(data, pos, 4, "32-bit field")?;
             }
             _ => {
                 return Err(crate::Error::InvalidSchema(format!(
@@ -160,10 +157,7 @@ fn parse_timeseries(data: &[u8]) -> Result<TimeSeries> {
             (1, 2) => {
                 let (length, new_pos) = read_varint(data, pos)?;
                 pos = new_pos;
-                let end = pos + length as usize;
-                if end > data.len() {
-                    return Err(crate::Error::InvalidSchema("Truncated label".into()));
-                }
+                let end = end_of(data, pos, length, "label")?;
                 let label = parse_label(&data[pos..end])?;
                 labels.push(label);
                 pos = end;
@@ -172,10 +166,7 @@ fn parse_timeseries(data: &[u8]) -> Result<TimeSeries> {
             (2, 2) => {
                 let (length, new_pos) = read_varint(data, pos)?;
                 pos = new_pos;
-                let end = pos + length as usize;
-                if end > data.len() {
-                    return Err(crate::Error::InvalidSchema("Truncated sample".into()));
-                }
+                let end = end_of(data, pos, length, "sample")?;
                 let sample = parse_sample(&data[pos..end])?;
                 samples.push(sample);
                 pos = end;
@@ -186,14 +177,14 @@ fn parse_timeseries(data: &[u8]) -> Result<TimeSeries> {
                 pos = new_pos;
             }
             (_, 1) => {
-                pos += 8;
+                pos = end_of(data, pos, 8, "64-bit field")?;
             }
             (_, 2) => {
                 let (length, new_pos) = read_varint(data, pos)?;
-                pos = new_pos + length as usize;
+                pos = end_of(data, new_pos, length, "length-delimited field")?;
             }
             (_, 5) => {
-                pos += 4;
+                pos = end_of(data, pos, 4, "32-bit field")?;
             }
             _ => {
                 return Err(crate::Error::InvalidSchema(format!(
@@ -225,10 +216,7 @@ fn parse_label(data: &[u8]) -> Result<Label> {
             (1, 2) => {
                 let (length, new_pos) = read_varint(data, pos)?;
                 pos = new_pos;
-                let end = pos + length as usize;
-                if end > data.len() {
-                    return Err(crate::Error::InvalidSchema("Truncated label name".into()));
-                }
+                let end = end_of(data, pos, length, "label name")?;
                 name = String::from_utf8_lossy(&data[pos..end]).to_string();
                 pos = end;
             }
@@ -236,10 +224,7 @@ fn parse_label(data: &[u8]) -> Result<Label> {
             (2, 2) => {
                 let (length, new_pos) = read_varint(data, pos)?;
                 pos = new_pos;
-                let end = pos + length as usize;
-                if end > data.len() {
-                    return Err(crate::Error::InvalidSchema("Truncated label value".into()));
-                }
+                let end = end_of(data, pos, length, "label value")?;
                 value = String::from_utf8_lossy(&data[pos..end]).to_string();
                 pos = end;
             }
@@ -249,14 +234,14 @@ fn parse_label(data: &[u8]) -> Result<Label> {
                 pos = new_pos;
             }
             (_, 1) => {
-                pos += 8;
+                pos = end_of(data, pos, 8, "64-bit field")?;
             }
             (_, 2) => {
                 let (length, new_pos) = read_varint(data, pos)?;
-                pos = new_pos + length as usize;
+                pos = end_of(data, new_pos, length, "length-delimited field")?;
             }
             (_, 5) => {
-                pos += 4;
+                pos = end_of(data, pos, 4, "32-bit field")?;
             }
             _ => {
                 return Err(crate::Error::InvalidSchema(format!(
@@ -305,14 +290,14 @@ fn parse_sample(data: &[u8]) -> Result<Sample> {
                 pos = new_pos;
             }
             (_, 1) => {
-                pos += 8;
+                pos = end_of(data, pos, 8, "64-bit field")?;
             }
             (_, 2) => {
                 let (length, new_pos) = read_varint(data, pos)?;
-                pos = new_pos + length as usize;
+                pos = end_of(data, new_pos, length, "length-delimited field")?;
             }
             (_, 5) => {
-                pos += 4;
+                pos = end_of(data, pos, 4, "32-bit field")?;
             }
             _ => {
                 return Err(crate::Error::InvalidSchema(format!(
@@ -327,6 +312,16 @@ fn parse_sample(data: &[u8]) -> Result<Sample> {
         timestamp_ms,
         value,
     })
+}
+
+/// Position just past the `len` bytes starting at `pos`, or an error if that
+/// overflows or lies beyond the end of `data` (`len` is untrusted input).
+fn end_of(data: &[u8], pos: usize, len: u64, what: &str) -> Result<usize> {
+    usize::try_from(len)
+        .ok()
+        .and_then(|len| pos.checked_add(len))
+        .filter(|&end| end <= data.len())
+        .ok_or_else(|| crate::Error::InvalidSchema(format!("Truncated {what}")))
 }
 
 /// Read a varint from the buffer, returning (value, new_position)
